@@ -347,12 +347,12 @@ def parse_value(text, ty):
         text = text.strip()
         for bname, ftys in ty.branches:
             tag = "$" + bname
-            if text == tag or text == tag + "()":
-                if ftys:
-                    continue
+            if (text == tag or text == tag + "()") and not ftys:
                 return (tag,)
             if text.startswith(tag + "(") and text.endswith(")"):
-                parts = _split_top(text[len(tag) + 1:-1])
+                inner = text[len(tag) + 1:-1]
+                # (an empty symbol is printed as nothing: `$B()` for a branch with one symbol field)
+                parts = [""] if (inner == "" and len(ftys) == 1) else _split_top(inner)
                 if len(parts) != len(ftys):
                     continue
                 return (tag,) + tuple(parse_value(p.strip(" ") if ft != SYMBOL else (p[1:] if p.startswith(" ") else p), ft) for p, ft in zip(parts, ftys))
